@@ -16,6 +16,7 @@ import (
 	"sort"
 	"strings"
 	"sync"
+	"syscall"
 	"time"
 
 	"verif/engine"
@@ -51,11 +52,14 @@ type c28Obs struct {
 }
 
 type c28Job struct {
-	State    string `json:"state"`
-	Pristine string `json:"pristine"`
-	Work     string `json:"work"`
-	IDs      []int  `json:"ids"`
-	Depth2   bool   `json:"depth2"`
+	State    string   `json:"state"`
+	Pristine string   `json:"pristine"`
+	Work     string   `json:"work"`
+	IDs      []int    `json:"ids"`
+	Reqs     []c28Req `json:"reqs"`  // the concrete requests of IDs (enumerated once, by the main process)
+	Reads    []c28Req `json:"reads"` // depth 2: the single-parameter read requests repeated after a successful state change
+	Depth2   bool     `json:"depth2"`
+	CPUSecs  uint64   `json:"cpu_secs"` // CPU-time budget of the worker (RLIMIT_CPU), 0 = none
 }
 
 // panicSite extracts the innermost skycoin function from a panic stack.
@@ -156,14 +160,17 @@ func c28Worker(args []string) {
 		return
 	}
 	vtime.SetUnix(info.ClockUnix)
-	all := c28Requests(g, info, c28FirstID(job.State))
+	if job.CPUSecs > 0 {
+		// load-independent deadline: the kernel kills the worker when it has burnt this much CPU time
+		syscall.Setrlimit(syscall.RLIMIT_CPU, &syscall.Rlimit{Cur: job.CPUSecs, Max: job.CPUSecs}) //nolint:errcheck
+	}
 	byID := map[int]*c28Req{}
+	for i := range job.Reqs {
+		byID[job.Reqs[i].ID] = &job.Reqs[i]
+	}
 	var readSingles []*c28Req
-	for i := range all {
-		byID[all[i].ID] = &all[i]
-		if !all[i].Mut && all[i].Single && !all[i].Danger {
-			readSingles = append(readSingles, &all[i])
-		}
+	for i := range job.Reads {
+		readSingles = append(readSingles, &job.Reads[i])
 	}
 	var n *node
 	reset := func() error {
@@ -244,10 +251,14 @@ func c28FirstID(state string) int {
 
 // c28RunShard runs the ids in worker subprocesses until all are done; a death or timeout is attributed to the request
 // that had been started last, recorded, and the rest continues in a new worker.
-func c28RunShard(job c28Job, deadline time.Duration, vmemKiB int, onObs func(c28Obs), onDeath func(id, after int, kind, detail string), onBroken func(string)) {
+func c28RunShard(job c28Job, byID map[int]*c28Req, deadline time.Duration, vmemKiB int, onObs func(c28Obs), onDeath func(id, after int, kind, detail string), onBroken func(string)) {
 	ids := job.IDs
 	for len(ids) > 0 {
 		job.IDs = ids
+		job.Reqs = job.Reqs[:0]
+		for _, id := range ids {
+			job.Reqs = append(job.Reqs, *byID[id])
+		}
 		jb, _ := json.Marshal(job)
 		wr := engine.RunWorker(jb, vmemKiB, deadline, "c28")
 		done := map[int]bool{}
@@ -287,9 +298,11 @@ func c28RunShard(job c28Job, deadline time.Duration, vmemKiB int, onObs func(c28
 			onBroken(fmt.Sprintf("worker ended without finishing and without a request in flight (timeout=%v died=%v exit=%d): %s", wr.TimedOut, wr.Died, wr.ExitCode, tail(string(wr.Stderr), 300)))
 			return
 		}
-		kind := "worker-death"
+		kind := "worker-killed-by-cpu-or-memory-limit"
 		if wr.TimedOut {
 			kind = "no-return-within-deadline"
+		} else if bytes.Contains(wr.Stderr, []byte("goroutine ")) || bytes.Contains(wr.Stderr, []byte("fatal error")) {
+			kind = "worker-crash"
 		}
 		onDeath(lastS, lastAfter, kind, tail(string(wr.Stderr), 600))
 		// continue after the culprit (a depth-2 culprit belongs to the state-changing request lastAfter, which is done)
@@ -351,6 +364,12 @@ func c28(r *engine.Run) {
 			byID[reqs[st][i].ID] = &reqs[st][i]
 		}
 	}
+	dbg := func(what string) {
+		if os.Getenv("VERIF_C28_DEBUG") != "" {
+			fmt.Fprintf(os.Stderr, "c28 %6.1fs %s\n", r.Elapsed().Seconds(), what)
+		}
+	}
+	dbg("fixtures built, requests enumerated")
 	// shards
 	nw := runtime.NumCPU()
 	if nw > 16 {
@@ -370,12 +389,20 @@ func c28(r *engine.Run) {
 	for _, st := range states {
 		bins := make([][]int, per)
 		k := 0
+		var reads []c28Req
+		if r.Thorough() {
+			for i := range reqs[st] {
+				if q := &reqs[st][i]; !q.Mut && q.Single && !q.Danger {
+					reads = append(reads, *q)
+				}
+			}
+		}
 		for i := range reqs[st] {
 			q := &reqs[st][i]
 			if q.Danger {
 				wi++
-				shards = append(shards, shard{job: c28Job{State: st, Pristine: filepath.Join(scratch, "fx-"+st), Work: filepath.Join(scratch, fmt.Sprintf("w%d", wi)), IDs: []int{q.ID}},
-					deadline: time.Duration(r.Pick(60, 300)) * time.Second, danger: true})
+				shards = append(shards, shard{job: c28Job{State: st, Pristine: filepath.Join(scratch, "fx-"+st), Work: filepath.Join(scratch, fmt.Sprintf("w%d", wi)), IDs: []int{q.ID}, CPUSecs: uint64(r.Pick(60, 300))},
+					deadline: time.Duration(r.Pick(900, 3600)) * time.Second, danger: true})
 				continue
 			}
 			bins[k%per] = append(bins[k%per], q.ID)
@@ -386,8 +413,8 @@ func c28(r *engine.Run) {
 				continue
 			}
 			wi++
-			shards = append(shards, shard{job: c28Job{State: st, Pristine: filepath.Join(scratch, "fx-"+st), Work: filepath.Join(scratch, fmt.Sprintf("w%d", wi)), IDs: b, Depth2: r.Thorough()},
-				deadline: time.Duration(r.Pick(600, 3000)) * time.Second})
+			shards = append(shards, shard{job: c28Job{State: st, Pristine: filepath.Join(scratch, "fx-"+st), Work: filepath.Join(scratch, fmt.Sprintf("w%d", wi)), IDs: b, Depth2: r.Thorough(), Reads: reads, CPUSecs: uint64(r.Pick(300, 3000))},
+				deadline: time.Duration(r.Pick(900, 3600)) * time.Second})
 		}
 	}
 	// dangerous single requests first (they take the longest), then the shards
@@ -494,7 +521,8 @@ func c28(r *engine.Run) {
 	}
 	engine.ParForN(nw, len(shards), func(i int) {
 		s := shards[i]
-		c28RunShard(s.job, s.deadline, 4<<20, onObs, onDeath, onBroken)
+		c28RunShard(s.job, byID, s.deadline, 4<<20, onObs, onDeath, onBroken)
+		dbg(fmt.Sprintf("shard %d done (%d ids, danger=%v)", i, len(s.job.IDs), s.danger))
 	})
 
 	// signatures: per (endpoint, symptom, site, state) the minimal sets of off-base parameter classes that trigger it
@@ -588,7 +616,7 @@ func c28(r *engine.Run) {
 	}
 	sort.Strings(never2xx)
 	// endpoints that cannot succeed on a node without peers
-	expectedNever := map[string]bool{"POST /api/v1/resendUnconfirmedTxns": true, "POST /api/v1/network/connection/disconnect": true, "GET /api/v1/network/connection": true}
+	expectedNever := map[string]bool{"GET /api/v1/csrf": true /* token checking is off: 404 */, "POST /api/v1/resendUnconfirmedTxns": true, "POST /api/v1/network/connection/disconnect": true, "GET /api/v1/network/connection": true}
 	for _, ep := range never2xx {
 		if !expectedNever[ep] && len(viols) == 0 {
 			r.Broken("vacuous: the base request of %s never succeeded (statuses seen: %v)", ep, keys(statusClasses[ep]))
